@@ -793,6 +793,7 @@ pub fn oracle_c12(op: &str, outs: &[String]) -> String {
     let mut adr = true;
     let mut cnt: u32 = 0;
     let mut dr: u8 = 0;
+    let mut resync_dr = false;
     let mut devaddr: u32 = 0;
     let mut joined = false;
     let mut pending_uplink = false;
@@ -831,6 +832,14 @@ pub fn oracle_c12(op: &str, outs: &[String]) -> String {
                     Some(u) => u,
                     None => return "FAIL:uplink-not-decodable".into(),
                 };
+                if resync_dr {
+                    // an accepted Class A downlink carried a LinkADRReq: the network may have commanded
+                    // another data rate (C08/C09 judge that); the automaton follows the rate in use
+                    if let Some(d) = table.iter().position(|x| *x == Some((tx.rf.sf, tx.rf.bw))) {
+                        dr = d as u8;
+                    }
+                    resync_dr = false;
+                }
                 let want_req = adr && cnt >= 64 && lower_exists(dr);
                 if up.devaddr != devaddr {
                     return format!("FAIL:devaddr-{}-expected-{}", up.devaddr, devaddr);
@@ -879,8 +888,16 @@ pub fn oracle_c12(op: &str, outs: &[String]) -> String {
                     if w[5] == "1" {
                         ack_owed = true;
                     }
-                    // LinkADRReq may change the data rate: this automaton is only run on histories whose
-                    // downlinks carry no LinkADRReq (the generator for C12 sends none)
+                    // a LinkADRReq in a Class A downlink may change the data rate
+                    if w[0] != "rxc" && w.len() >= 11 && w[3] == "d" {
+                        let mut bytes = if w[8] == "-" { vec![] } else { unhex(w[8]) };
+                        if w[9] == "0" && w[10] != "-" {
+                            bytes.extend_from_slice(&unhex(w[10]));
+                        }
+                        if split_cmds(&bytes, down_len).0.iter().any(|c| c.0 == 0x03) {
+                            resync_dr = true;
+                        }
+                    }
                     pending_uplink = false;
                 } else if (out.starts_with("resp=RxComplete") || out.starts_with("resp=NoAck")) && w[0] != "rxc" {
                     // an oversized frame ended the receive procedure as a timeout would
